@@ -47,7 +47,7 @@ Definition count {A} (f : idx -> option A) (l : list idx) : Z :=
 
 Record view := {
   v_bal : list Z;            (* in the order of acct_keys *)
-  v_nseq : list Z;           (* next send sequence of channel 0, channel 1 *)
+  v_nseq : list Z;           (* next send sequence of channels 0..3 (two loop-back pairs 0<->1, 2<->3) *)
   v_keys : list (list Z);    (* key_view per incoming key of the history *)
   v_legs : list (list Z);    (* leg_view per outgoing index of the history *)
   v_ninc : Z; v_nout : Z     (* sizes of the two in-flight stores *)
@@ -55,7 +55,7 @@ Record view := {
 
 Definition view_of (rcvs : list Z) (keys idxs : list idx) (s : st) : view :=
   {| v_bal := map (fun '(a, d) => bal s a d) (acct_keys rcvs);
-     v_nseq := [nseq s 0; nseq s 1];
+     v_nseq := [nseq s 0; nseq s 1; nseq s 2; nseq s 3];
      v_keys := map (key_view s) keys;
      v_legs := map (leg_view s) idxs;
      v_ninc := count (incs s) keys; v_nout := count (outs s) idxs |}.
@@ -93,7 +93,7 @@ Record hist := {
 
 Definition init_state (h : hist) : st :=
   let v := h_init h in
-  clean (bank_of (h_rcvs h) (v_bal v)) (fun c => if c =? 0 then nth 0 (v_nseq v) 0 else if c =? 1 then nth 1 (v_nseq v) 0 else 0).
+  clean (bank_of (h_rcvs h) (v_bal v)) (fun c => if (0 <=? c) && (c <? 4) then nth (Z.to_nat c) (v_nseq v) 0 else 0).
 
 Definition class_of (r : res st) : Z := match r with Ok _ => 0 | Err _ => 1 | Panic => 2 end.
 
